@@ -146,6 +146,55 @@ theorem getField_refuses (b : Bounds) (s : List Char) (e : List Char)
   | panic w => exact absurd hr (getRange_not_panic b e w)
   | ok bits => exact absurd ((getRange_accepts_iff b e).1 ⟨bits, hr⟩) hbad
 
+/-- Too many `/`: refused. -/
+theorem getRange_refuses_two_slashes (b : Bounds) (e : List Char) (h : 2 ≤ e.count '/') :
+    ∃ k, getRange b e = .err k := by
+  apply getRange_refuses_non_syntax
+  rintro ⟨t, ht⟩
+  have := termSyn_slash_count b e t ht
+  omega
+
+/-- Too many `-` (in a term without step): refused. -/
+theorem getRange_refuses_two_hyphens (b : Bounds) (e : List Char) (hs : '/' ∉ e)
+    (h : 2 ≤ e.count '-') : ∃ k, getRange b e = .err k := by
+  apply getRange_refuses_non_syntax
+  rintro ⟨t, baseS, stepS, he, _, hbase, _⟩
+  cases stepS with
+  | some st => subst he; simp [stepSuffix] at hs
+  | none =>
+    simp [stepSuffix] at he
+    subst he
+    have := baseSyn_hyphen_count b e t.base hbase
+    omega
+
+/-- A single value that is neither a name of the field nor a numeral (non-numeric text, unknown
+name): refused. -/
+theorem getRange_refuses_non_value (b : Bounds) (e : List Char) (hs : '/' ∉ e) (hh : '-' ∉ e)
+    (hw : isWild e = false) (hname : nameLookup b.names (toLower e) = none)
+    (hnum : ¬ ∃ n, Numeral e n) : ∃ k, getRange b e = .err k := by
+  apply getRange_refuses_non_syntax
+  rintro ⟨t, baseS, stepS, he, _, hbase, _⟩
+  cases stepS with
+  | some st => subst he; simp [stepSuffix] at hs
+  | none =>
+    simp [stepSuffix] at he
+    subst he
+    cases hb : t.base with
+    | star =>
+      rw [hb] at hbase
+      have := (isWild_iff e).2 hbase
+      rw [hw] at this; cases this
+    | single n =>
+      rw [hb] at hbase
+      rcases hbase.2.2 with h1 | ⟨_, h2⟩
+      · rw [hname] at h1; cases h1
+      · exact hnum ⟨n, h2⟩
+    | range lo hi =>
+      rw [hb] at hbase
+      obtain ⟨a, c, hs', _⟩ := hbase
+      subst hs'
+      simp at hh
+
 -- the classes named by the property statement, on concrete inputs (the general statements are
 -- the three theorems above)
 example : getField minutes "60".toList = .err "above-max" := by decide
